@@ -112,7 +112,7 @@ def run(R):
               "event model (Lean `Eat.eat`). Non-trivial = n>=2 and more than two distinct matrix entries.")
     R.assumptions = ["numpy float rounding and the two 1e-9 clamps are covered by the property's own 1e-7 tolerance"]
     items = []
-    cnt = 8000 if R.thorough else 300
+    cnt = 8000 if R.thorough else 800
     for t in range(cnt):
         n = R.rng.randint(1, 8)
         P = V.rand_profile(R.rng, n, n) if R.rng.random() < 0.7 else V.structured_profile(R.rng, n, n)
